@@ -24,13 +24,15 @@ SINGLE = ("PUSH", "POP", "LEN", "DEL", "PUSHX")
 
 WITNESSES = [
     # id, vals, cmds, schedule
-    ("w-create-create", "-", "PUSH:1,PUSH:1", "0,1,0,1"),
-    ("w-create-create-3", "-", "PUSH:1,PUSH:1,PUSH:1", "0,1,2,0,1,2"),
-    ("w-delete-recreate", "1=1", "DEL:1,PUSH:1", "0,0,1,0,0,1,1"),
-    ("w-pop-empties-push", "1=1", "POP:1,PUSH:1", "0,0,1,0,0,1,1"),
+    ("w-create-create", "-", "PUSH:1,PUSH:1", "0,1,0,1,0,1,0,1"),
+    ("w-create-create-3", "-", "PUSH:1,PUSH:1,PUSH:1", "0,1,2,0,1,2,0,1,2,0,1,2,0,1,2"),
+    ("w-delete-recreate", "1=1", "DEL:1,PUSH:1", "0,0,1,0,0,1,1,1,1"),
+    ("w-pop-empties-push", "1=1", "POP:1,PUSH:1", "0,0,1,0,0,1,1,1,1"),
     ("w-move-opposite", "1=2,2=2", "MOVE:1:2,MOVE:2:1", "0,1,0,1,0,1,0,1,0,1"),
     ("w-move-self", "1=2", "MOVE:1:1", "0,0,0,0,0,0"),
-    ("w-move-create-create", "1=2,2=2", "MOVE:1:3,MOVE:2:3", "0,0,1,1,0,1,0,1,0,1,0,1"),
+    ("w-move-create-create", "1=2,2=2", "MOVE:1:3,MOVE:2:3", "0,0,1,1,0,1,0,1,0,1,0,1,0,1,0,1"),
+    ("w-self-move-last", "2=1", "MOVE:2:2,DEL:2", "0,0,0,0,1,0,0,0,1,1,0,0,0,1,0,0,0,1,0,1,0,1"),
+    ("w-move-pop-orphan", "2=1", "MOVE:2:2,POP:2", "1,0,0,0,1,0,0,1,1"),
     ("w-stable-push-push", "1=1", "PUSH:1,PUSH:1", "0,1,0,1,0,1,0,1"),
     ("w-stable-push-len", "1=1", "PUSH:1,LEN:1", "0,1,0,1,0,1,0,1"),
     ("w-stable-pop-pop", "1=3", "POP:1,POP:1", "0,1,0,1,0,1,0,1"),
@@ -43,7 +45,8 @@ WITNESSES = [
 def klass(cmds, vals, waiting=None):
     """root-cause class of a scenario.
     stable-keys: only PUSH / LEN on keys that exist (the setting of theorem C05_concurrent_pushes_all_counted);
-    unstable-keys: some command may create or unlink a key while others use it.
+    unstable-keys: some command may create or unlink a key while others use it;
+    self-move: one of the commands is LPOPRPUSH k k (the key vanishes between its pop and its push).
     For a deadlock: self-move (a waiting LPOPRPUSH k k), lock-order (two waiting multi-key commands), other."""
     present = set(kv.split("=")[0] for kv in vals.split(",")) if vals != "-" else set()
     cl = cmds.split(",")
@@ -55,6 +58,8 @@ def klass(cmds, vals, waiting=None):
             return "lock-order"
         return "other"
     stable = all(c.split(":")[0] in ("PUSH", "PUSHX", "LEN") and c.split(":")[1] in present for c in cl)
+    if any(c.split(":")[0] == "MOVE" and c.split(":")[1] == c.split(":")[2] for c in cl):
+        return "self-move"
     return "stable-keys" if stable else "unstable-keys"
 
 
